@@ -111,6 +111,26 @@ def extract(ctx):
     common.write(ctx, 'srw.inc', txt)
     sliced += sl
     fired['spin_rw_mutex'] = rw.fired
+    # ---- rw_mutex (waitable variant; waiting/notification calls are safety-neutral and become RG_NOP) ----
+    rw = Rewriter('rw_mutex')
+    RWM_METHODS = [('lock', r'void lock\(\)', None, 1), ('try_lock', r'bool try_lock\(\)', None, 0), ('unlock', r'void unlock\(\)', None, 0),
+                   ('lock_shared', r'void lock_shared\(\)', None, 1), ('try_lock_shared', r'bool try_lock_shared\(\)', None, 0), ('unlock_shared', r'void unlock_shared\(\)', None, 0),
+                   ('upgrade', r'bool upgrade\(\)', None, 2), ('downgrade', r'void downgrade\(\)', None, 0)]
+    NOPS = [(r'auto wakeup_condition = \[&\] \{[^}]*\};', 'RG_NOP();'), (r'adaptive_wait_on_address\([^;]*\);', 'RG_NOP();'), (r'r1::notify_by_address(?:_all)?\([^;]*\);', 'RG_NOP();'),
+            (r'state_type has_writer = WRITER \| WRITER_PENDING;', 'state_type has_writer = WRITER | WRITER_PENDING;'),
+            (r'__TBB_ASSERT\(m_state\.load\(std::memory_order_relaxed\) & WRITER, nullptr\),', '__TBB_ASSERT(m_state.load(std::memory_order_relaxed) & WRITER, nullptr);'),
+            (r'state_type curr_state = \(m_state &= READERS \| WRITER_PENDING\);', 'state_type curr_state = (m_state &= (READERS | WRITER_PENDING));'),
+            (r'if \(m_state\.fetch_add\(ONE_READER\) & has_writer\)', 'if (m_state.fetch_add(ONE_READER) & has_writer)'),
+            (r'if \(!\(m_state & WRITER_PENDING\)\)', 'if (!(m_state.load(std::memory_order_relaxed) & WRITER_PENDING))')]
+    for pat, what in ((r'static constexpr state_type WRITER = 1;', 'WRITER'), (r'static constexpr state_type WRITER_PENDING = 2;', 'WRITER_PENDING'), (r'static constexpr state_type ONE_READER = 4;', 'ONE_READER')):
+        if not re.search(pat, load(RWM)):
+            raise ExtractionBreak('rw_mutex.h: constant %s changed' % what)
+    closed_world(RWM, r'class rw_mutex \{', 'm_state', [(n, sg) for n, sg, _, _ in RWM_METHODS],
+                 extra_ok=(r'rw_mutex\(\) noexcept : m_state\(0\)', r'~rw_mutex', r'__TBB_ASSERT\(!m_state', r'std::atomic<state_type> m_state;'))
+    txt, sl = srw_like(RWM, r'class rw_mutex \{', 'rw_mutex', RWM_METHODS, rw, nop_extra=NOPS)
+    common.write(ctx, 'rwm.inc', txt)
+    sliced += sl
+    fired['rw_mutex'] = rw.fired
     # ---- spin_mutex -------------------------------------------------------------------
     rw = Rewriter('spin_mutex')
     cls_sig = r'class spin_mutex \{'
@@ -163,6 +183,8 @@ def build(ctx):
     for name, sig, ns, nl in SRW_METHODS:
         jobs.append(Job('srw.' + name, C, 'h_srw_' + name, route='RG', defines=['SRW'], loops=nl > 0, nloops=nl if nl else None,
                         target='spin_rw_mutex::' + name, source=SRW, timeout=300))
+    for name, nl in (('lock', 1), ('try_lock', 0), ('unlock', 0), ('lock_shared', 1), ('try_lock_shared', 0), ('unlock_shared', 0), ('upgrade', 3), ('downgrade', 0)):
+        jobs.append(Job('rwm.' + name, C, 'h_rwm_' + name, route='RG', defines=['RWM'], loops=nl > 0, nloops=nl if nl else None, target='rw_mutex::' + name, source=RWM, timeout=300))
     for name, nl in (('lock', 1), ('try_lock', 0), ('unlock', 0)):
         jobs.append(Job('sm.' + name, C, 'h_sm_' + name, route='RG', defines=['SM'], loops=nl > 0, nloops=nl if nl else None, target='spin_mutex::' + name, source=SM))
     for name in ('acquire', 'try_acquire', 'release'):
@@ -173,7 +195,7 @@ def build(ctx):
                     'spin_wait_while_eq: returns only when the location differs (assumed contract)', 'cxx2c rewriter'],
         'drops': ['call_itt_notify -> RG_NOP()', 'atomic_backoff -> RG_NOP()', 'std::atomic<T> -> T behind numbered ATOMIC_*_AT(site, ...) primitives', '__TBB_ASSERT -> proof obligation'],
         'not_decided': ['queuing_mutex / queuing_rw_mutex queue order and hand-off across more than one node (multi-node MCS protocol) beyond the node-publication and token obligations',
-                        'rw_mutex / mutex (waitable-atomic variants)', 'RTM variants (hardware transactions)', 'every blocked acquirer eventually gets the lock (liveness)',
+                        'mutex.h (waitable flag; same shape as spin_mutex)', 'rw_mutex: blocking/wake-up calls (adaptive_wait_on_address, notify_by_address) are safety-neutral and replaced by RG_NOP - no lost-wake-up claim', 'RTM variants (hardware transactions)', 'every blocked acquirer eventually gets the lock (liveness)',
                         'visibility of critical-section writes (memory model)'],
         'assumptions': ['atomics are sequentially consistent', 'fewer than 2^40 simultaneous readers (the reader field does not overflow)'],
     }
